@@ -27,6 +27,9 @@ Pool ==
     With(Base, "plugins", PL(FALSE, <<[src |-> "short", cfg |-> "num1"]>>)), With(Base, "plugins", PL(FALSE, <<[src |-> "short", cfg |-> "str1"]>>)),
     With(Base, "plugins", PL(FALSE, <<[src |-> "short", cfg |-> "bfalse"]>>)), With(Base, "plugins", PL(FALSE, <<[src |-> "short", cfg |-> "zero"]>>)),
     With(Base, "plugins", PL(FALSE, <<[src |-> "short", cfg |-> "emptystr"]>>)),
+    \* a ref with a slash in it: the three spellings of the source are one plugin, another such ref is another
+    With(Base, "plugins", PL(FALSE, <<[src |-> "short_sref", cfg |-> "kv"]>>)), With(Base, "plugins", PL(FALSE, <<[src |-> "org_sref", cfg |-> "kv"]>>)),
+    With(Base, "plugins", PL(FALSE, <<[src |-> "canon_sref", cfg |-> "kv"]>>)), With(Base, "plugins", PL(FALSE, <<[src |-> "short_sref2", cfg |-> "kv"]>>)),
     With(Base, "plugins", PL(FALSE, <<[src |-> "short", cfg |-> "null"], [src |-> "other", cfg |-> "null"]>>)),
     With(Base, "plugins", PL(FALSE, <<[src |-> "other", cfg |-> "null"], [src |-> "short", cfg |-> "null"]>>)),
     \* boundary shifts: text moved between adjacent fields
